@@ -1,6 +1,6 @@
 (* C13 — stationary time-series graphs stay complete, ordered and shift-invariant (model: C13/Model.v, spec: C13/Spec.v) *)
 From Coq Require Import List Arith.
-From PG Require Import C13.Model C13.Spec C13.Proofs C13.Refine.
+From PG Require Import C13.Model C13.Spec C13.Proofs C13.Refine C13.Refuted.
 Import ListNotations.
 
 (* after ANY history of operations (unbounded), from the empty graph of any of the five class shapes:
@@ -51,3 +51,49 @@ Example ts_example :
   snd (step s (SetMaxLag 0)) = true.
 Proof. vm_compute. repeat split. Qed.
 Print Assumptions ts_example.
+
+(* ---- documentation of the repaired defects: statements about the as-is transcription of the OLD code (C13/Refuted.v) ---- *)
+Theorem old_set_max_lag_growth_nodes_refuted :
+  exists c L0 ops n, 1 <= L0 /\
+    snd (old_set_max_lag_single (run (init c L0) ops) n) = false /\
+    ~ window_nodes (fst (old_set_max_lag_single (run (init c L0) ops) n)).
+Proof. exact old_growth_nodes_refuted. Qed.
+Print Assumptions old_set_max_lag_growth_nodes_refuted.
+
+Theorem old_set_max_lag_growth_edges_refuted :
+  exists c L0 ops n, 1 <= L0 /\
+    let s' := fst (old_set_max_lag_single (run (init c L0) ops) n) in
+    window_nodes s' /\ exists ly, In ly (layers s') /\ ~ shift_complete (maxlag s') ly.
+Proof. exact old_growth_edges_refuted. Qed.
+Print Assumptions old_set_max_lag_growth_edges_refuted.
+
+Theorem old_set_max_lag_shrink_refuted :
+  exists c L0 ops n, 1 <= L0 /\
+    let s := run (init c L0) ops in
+    snd (old_set_max_lag_single s n) = true /\ maxlag (fst (old_set_max_lag_single s n)) <> maxlag s /\
+    ~ window_nodes (fst (old_set_max_lag_single s n)).
+Proof. exact old_shrink_refuted. Qed.
+Print Assumptions old_set_max_lag_shrink_refuted.
+
+Theorem old_set_max_lag_mixed_refuted :
+  exists ops n,
+    let s' := fst (old_set_max_lag_mixed (run (init 4 1) ops) n) in
+    snd (old_set_max_lag_mixed (run (init 4 1) ops) n) = false /\
+    (exists ly, In ly (layers s') /\ llag ly <> maxlag s') /\
+    (exists ly, In ly (layers (run (init 4 1) ops)) /\ ledges ly = []) /\
+    forall ly, In ly (layers s') -> ledges ly <> [].
+Proof. exact old_mixed_growth_refuted. Qed.
+Print Assumptions old_set_max_lag_mixed_refuted.
+
+Theorem old_set_max_lag_cpdag_refuted :
+  let s := run (init 3 1) [AddEdge 0 (0, 1) (1, 0)] in
+  snd (old_set_max_lag_mixed s 2) = true /\ fst (old_set_max_lag_mixed s 2) <> s.
+Proof. exact old_cpdag_growth_refuted. Qed.
+Print Assumptions old_set_max_lag_cpdag_refuted.
+
+Theorem old_add_edges_from_refuted :
+  exists c L0 i es, 1 <= L0 /\
+    snd (old_add_edges (init c L0) i es) = true /\ fst (old_add_edges (init c L0) i es) <> init c L0 /\
+    apply_op (init c L0) (AddEdges i es) = Raise.
+Proof. exact old_add_edges_refuted. Qed.
+Print Assumptions old_add_edges_from_refuted.
